@@ -77,8 +77,17 @@ func main() {
 			os.Exit(1)
 		}
 	}
+	var rel []string
+	for _, p := range inputs {
+		a, _ := filepath.Abs(p)
+		a = strings.TrimSuffix(a, ".fifo")
+		if i := strings.LastIndex(a, "/work/"); i >= 0 {
+			a = a[i+len("/work/"):]
+		}
+		rel = append(rel, a)
+	}
 	for _, p := range extras {
 		os.MkdirAll(filepath.Dir(p), 0777)
-		os.WriteFile(p, []byte("extra\n"), 0666)
+		os.WriteFile(p, []byte("extra:"+simrt.TaskKey(name, rel, params)+"\n"), 0666)
 	}
 }
